@@ -541,17 +541,17 @@ func Fields(kind, form string) []string {
 	if IsICMPError(form) {
 		switch kind {
 		case "icmp4", "icmp6":
-			return []string{"q.src", "q.dst", "q.echoid", "q.echoseq"}
+			return []string{"q.src", "q.dst", "q.echoid", "q.echoseq", "q.proto"}
 		case "udp4":
-			return []string{"q.src", "q.dst", "q.sport", "q.dport", "q.ipid"}
+			return []string{"q.src", "q.dst", "q.sport", "q.dport", "q.ipid", "q.proto"}
 		case "udp6":
-			return []string{"q.src", "q.dst", "q.sport", "q.dport", "q.len"}
+			return []string{"q.src", "q.dst", "q.sport", "q.dport", "q.len", "q.proto"}
 		case "tcp":
-			return []string{"q.src", "q.dst", "q.sport", "q.dport", "q.ipid", "q.seq"}
+			return []string{"q.src", "q.dst", "q.sport", "q.dport", "q.ipid", "q.seq", "q.proto"}
 		case "tcpparis":
-			return []string{"q.src", "q.dst", "q.sport", "q.dport", "q.seq"}
+			return []string{"q.src", "q.dst", "q.sport", "q.dport", "q.seq", "q.proto"}
 		case "sack":
-			return []string{"q.src", "q.dst", "q.sport", "q.dport", "q.seq"}
+			return []string{"q.src", "q.dst", "q.sport", "q.dport", "q.seq", "q.proto"}
 		}
 	}
 	switch form {
@@ -618,6 +618,36 @@ func (pt Perturb) Apply(in []byte) ([]byte, error) {
 		b[l.q] = b[l.q]&0xf0 | v
 		if n := int(v) * 4; v >= 5 && l.q+n <= len(b) {
 			refcodec.FixIPv4Checksum(b[l.q : l.q+n])
+		}
+	case "q.proto":
+		// the quoted datagram is of another transport protocol (same addresses, same leading transport bytes): not a packet
+		// this run sent
+		off := l.q + 9
+		if l.v == 6 {
+			off = l.q + 6
+		}
+		p := b[off]
+		var np byte
+		switch pt.Op {
+		case "+1":
+			np = p + 1
+		case "-1":
+			np = p - 1
+		case "+256", "swap":
+			np = map[bool]byte{true: 17, false: 6}[p == 6]
+		case "-256":
+			np = 132
+		case "zero":
+			np = 0
+		default:
+			np = map[bool]byte{true: 17, false: 1}[p == 1 || p == 58]
+			if l.v == 6 && np == 1 {
+				np = 58
+			}
+		}
+		b[off] = np
+		if l.v == 4 {
+			refcodec.FixIPv4Checksum(b[l.q : l.q+l.qihl])
 		}
 	case "q.ipid":
 		u16(l.q + 4)
